@@ -20,7 +20,7 @@ from ..ref import specval
 from . import search_common as S
 from ..worlds import words as WW
 
-from comb_spec_searcher.exception import ExceededMaxtimeError, SpecificationNotFound
+from comb_spec_searcher.exception import ExceededMaxtimeError, InvalidOperationError, SpecificationNotFound
 from comb_spec_searcher.strategies.rule import EquivalencePathRule, EquivalenceRule, ReverseRule, VerificationRule
 
 ID = "C19"
@@ -137,12 +137,16 @@ def gen(rng, tier):
         }
         inner["ver"] = [{"t": "FiatVerified", "salt": rng.randrange(1000), "pct": rng.choice([15, 30, 60]), "pack_spec": inner2}] + inner["ver"]
     fiat = {"t": "FiatVerified", "salt": rng.randrange(1000), "pct": rng.choice([5, 15, 30, 60]), "pack_spec": inner, "ignore_parent": rng.random() < 0.3}
+    # the strategy may offer its pack for some of the classes it verifies only (the others are counted directly)
+    fiat["pack_pct"] = rng.choice([100, 100, 100, 60, 30])
     ver = [v for v in R["pack"]["ver"] if v["t"] != "FiatVerified"]
     # AtomStrategy cannot count classes with statistics; keep what the generator chose
     R["pack"]["ver"] = [fiat] + ver if rng.random() < 0.7 else ver + [fiat]
     R["inner_masked"] = masked
     R["clock2"] = {"policy": "jitter", "seed": rng.randrange(1 << 30), "stall": rng.choice([0, 1, 8, 64]), "skew_p": rng.choice([0.0, 0.05])}
     R["limited_first"] = rng.choice([None, None, 0.0, 0.001, 0.5, 50.0])
+    # the class to expand may be named by its label in the specification (documented alternative)
+    R["by_label"] = rng.random() < 0.5
     return R
 
 
@@ -241,15 +245,32 @@ def execute(R, ctx):
         inner_pack = None
         for st in sim.pack.ver_strats:
             if isinstance(st, WW.FiatVerified):
-                inner_pack = st.pack(start)
+                inner_pack = WW.make_pack(st.pack_spec)
         allowed = list(sim.allowed) + WW.pack_strategies(inner_pack)
         for st in inner_pack.ver_strats:
             if isinstance(st, WW.FiatVerified) and st.pack_spec is not None:
-                allowed += WW.pack_strategies(st.pack(start))
+                allowed += WW.pack_strategies(WW.make_pack(st.pack_spec))
         # the original must itself be right, otherwise nothing can be said
         specval.check_counts(spec, start, R["nmax"], R["order_seed"], ctx, tag="C01")
         specval.check_structure(spec, start, allowed, ctx, tag="C02")
+        def offering(sp):
+            """Independent scan: the verified classes of a specification whose strategy offers a pack."""
+            res = []
+            for c, r in sp.rules_dict.items():
+                if isinstance(r, VerificationRule):
+                    try:
+                        r.strategy.pack(c)
+                    except InvalidOperationError:
+                        continue
+                    res.append(c)
+            return res
+
         todo = list(spec.unexpanded_verified_classes())
+        if sorted(map(repr, todo)) != sorted(map(repr, offering(spec))):
+            raise Violation(
+                "C19:unexpanded-classes-wrong",
+                f"unexpanded_verified_classes() of the original gives {todo[:4]}, the verified classes whose strategy offers a pack are {offering(spec)[:4]}",
+            )
         ctx.stat("verified_with_pack", len(todo))
         before_keys = list(spec.rules_dict.keys())
         before_ids = {c: id(r) for c, r in spec.rules_dict.items()}
@@ -271,8 +292,18 @@ def execute(R, ctx):
             # a time-limited expansion, possibly interrupted
             cls = todo[0]
             try:
-                part = spec.expand_comb_class(cls, spec.rules_dict[cls].pack(), reverse=False, continue_expanding_verified=False, max_expansion_time=R["limited_first"])
+                arg = spec.get_label(cls) if R.get("by_label") else cls
+                old_strategy = spec.rules_dict[cls].strategy
+                part = spec.expand_comb_class(arg, spec.rules_dict[cls].pack(), reverse=False, continue_expanding_verified=False, max_expansion_time=R["limited_first"])
                 ctx.probe("limited_expansion_finished")
+                if R.get("by_label"):
+                    ctx.probe("expanded_by_label")
+                pr = part.rules_dict.get(cls)
+                if isinstance(pr, VerificationRule) and pr.strategy is old_strategy:
+                    raise Violation(
+                        "C19:class-not-expanded",
+                        f"expand_comb_class({arg!r}, ...) returned a specification in which {cls} still has its old verification rule ({old_strategy!r})",
+                    )
                 specval.check_counts(part, start, R["nmax"], R["order_seed"] + 5, ctx, tag="C19")
             except ExceededMaxtimeError:
                 ctx.fault("time_limit_interrupt")
@@ -299,7 +330,7 @@ def execute(R, ctx):
             if new is not spec:
                 ctx.probe("nothing_to_expand_but_new_object")
         else:
-            left = list(new.unexpanded_verified_classes())
+            left = offering(new)
             if left:
                 raise Violation("C19:verified-class-left", f"the expanded specification still has verified classes offering a pack: {left[:3]}")
             shared = set(rule_objects(new)) & set(before_objs)
@@ -314,8 +345,8 @@ def execute(R, ctx):
         specval.check_counts(new, start, R["nmax"], R["order_seed"] + 1, ctx, tag="C19")
         specval.check_structure(new, start, allowed, ctx, tag="C19")
         for r in new.rules_dict.values():
-            if isinstance(r, VerificationRule) and isinstance(r.strategy, WW.FiatVerified):
-                raise Violation("C19:verified-class-left", f"fiat-verified class {r.comb_class} survives the expansion")
+            if isinstance(r, VerificationRule) and isinstance(r.strategy, WW.FiatVerified) and r.strategy.offers_pack(r.comb_class):
+                raise Violation("C19:verified-class-left", f"fiat-verified class {r.comb_class} (pack offered) survives the expansion")
         # the original is still usable
         specval.check_counts(spec, start, min(R["nmax"], 4), R["order_seed"] + 2, ctx, tag="C19:original")
         ctx.sim_seconds = sim.clock.elapsed() + clock2.elapsed()
